@@ -18,12 +18,26 @@ def evaluate(case):
             P[prop] = fg.position_grid._get_N_N_position_array(sel_property=prop).toarray().astype(float)
             O[prop] = (fg.b_rotations.get_spherical_voronoi()._calculate_N_N_array(sel_property=prop).toarray().astype(float)
                        if n_b > 1 else np.zeros((1, 1)))
+        Qb = np.array(fg.b_rotations.get_grid_as_array(only_upper=True), dtype=float) if n_b > 1 else None
         vols = np.asarray(fg.get_total_volumes(), dtype=float)
         pv = np.asarray(fg.get_position_grid().get_all_position_volumes(), dtype=float)
         rv = np.asarray(fg.b_rotations.get_spherical_voronoi().get_voronoi_volumes(), dtype=float)
         arr = fg.get_full_grid_as_array()
     m = P["adjacency"].shape[0]
     n = m * n_b
+    # "the corresponding rotation-grid quantity": the stored rotation distances are the angle between the two rotations, i.e. the
+    # smaller of the two angles between q_i and +-q_j (cheap independent reading of the rotation family; the full geometric check of the
+    # rotation matrices is C04's)
+    if Qb is not None and Qb.shape == (n_b, 4):
+        Od = O["center_distances"]
+        ii, jj = np.nonzero(Od)
+        if len(ii):
+            ang = np.arccos(np.clip(np.abs(np.einsum("ij,ij->i", Qb[ii], Qb[jj])), -1.0, 1.0))
+            bad = np.nonzero(~np.isclose(Od[ii, jj], ang, rtol=1e-9, atol=1e-12))[0]
+            if len(bad):
+                k = int(bad[0])
+                return (f"center_distances: rotation-family entry for rotations ({ii[k]},{jj[k]}) is {Od[ii[k], jj[k]]} but the angle between the two "
+                        f"rotations is {ang[k]} ({len(bad)} entries)")
     cfac = {"adjacency": 1.0, "border_len": f ** 2, "center_distances": f}
     pats = {}
     for prop, M in mats.items():
